@@ -8,6 +8,7 @@ import (
 	"bytes"
 	"context"
 	"crypto/sha256"
+	"encoding/binary"
 	"flag"
 	"fmt"
 	"io"
@@ -18,6 +19,7 @@ import (
 	"sync"
 
 	"github.com/codenotary/immudb/embedded/htree"
+	"github.com/codenotary/immudb/embedded/sql"
 	"github.com/codenotary/immudb/embedded/store"
 	"github.com/codenotary/immudb/pkg/api/schema"
 	ic "github.com/codenotary/immudb/pkg/client"
@@ -312,6 +314,73 @@ func (t *tamper) StreamVerifiableGet(ctx context.Context, in *schema.VerifiableG
 	return t.ImmuServiceClient.StreamVerifiableGet(ctx, in, opts...)
 }
 
+// setIntCol rewrites the value of an INTEGER column inside an encoded row
+func setIntCol(row []byte, col uint32, v uint64) []byte {
+	out := append([]byte{}, row...)
+	if len(out) < 4 {
+		return out
+	}
+	n := int(binary.BigEndian.Uint32(out))
+	off := 4
+	for i := 0; i < n && off+8 <= len(out); i++ {
+		id := binary.BigEndian.Uint32(out[off:])
+		l := int(binary.BigEndian.Uint32(out[off+4:]))
+		off += 8
+		if id == col && l == 8 && off+8 <= len(out) {
+			binary.BigEndian.PutUint64(out[off:], v)
+		}
+		off += l
+	}
+	return out
+}
+
+func (t *tamper) VerifiableSQLGet(ctx context.Context, in *schema.VerifiableSQLGetRequest, opts ...grpc.CallOption) (*schema.VerifiableSQLEntry, error) {
+	ve, err := t.ImmuServiceClient.VerifiableSQLGet(ctx, in, opts...)
+	if err != nil || len(t.muts) == 0 {
+		return ve, err
+	}
+	m := t.muts
+	t.proven = ve.SqlEntry.Tx
+	if m["sql.val"] {
+		ve.SqlEntry.Value = setIntCol(ve.SqlEntry.Value, ve.ColIdsByName["(t.a)"], 5)
+	}
+	if m["sql.tx"] {
+		ve.SqlEntry.Tx += 5
+	}
+	if m["cat.db"] {
+		ve.DatabaseId++
+	}
+	if m["cat.table"] {
+		ve.TableId++
+	}
+	if m["cat.pkcol"] {
+		ve.PKIDs[0] = ve.ColIdsByName["(t.a)"]
+	}
+	if m["cat.colmap"] {
+		ve.ColIdsByName["(t.a)"] = ve.ColIdsByName["(t.b)"]
+	}
+	if m["incl.leaf"] {
+		ve.InclusionProof.Leaf = 1 - ve.InclusionProof.Leaf
+	}
+	t.alterVTx(ve.VerifiableTx, func(ver int32) []byte {
+		dig, err := store.EntrySpecDigestFor(int(ver))
+		if err != nil {
+			return nil
+		}
+		pk, _, err := sql.EncodeRawValueAsKey(int64(1), sql.IntegerType, 8)
+		if err != nil {
+			return nil
+		}
+		key := sql.MapKey([]byte{ic.SQLPrefix}, sql.RowPrefix, sql.EncodeID(ve.DatabaseId), sql.EncodeID(ve.TableId), sql.EncodeID(sql.PKIndexID), pk)
+		root, ok := inclRoot(schema.InclusionProofFromProto(ve.InclusionProof), dig(&store.EntrySpec{Key: key, Value: ve.SqlEntry.Value}))
+		if !ok {
+			return nil
+		}
+		return root
+	})
+	return ve, nil
+}
+
 func (t *tamper) VerifiableTxById(ctx context.Context, in *schema.VerifiableTxRequest, opts ...grpc.CallOption) (*schema.VerifiableTx, error) {
 	vtx, err := t.ImmuServiceClient.VerifiableTxById(ctx, in, opts...)
 	if err != nil || len(t.muts) == 0 {
@@ -409,6 +478,14 @@ func main() {
 			vh.Fatalf("unexpected tx id %d", h.Id)
 		}
 	}
+	// tx 9: table t, tx 10: the row (1, 100, 5), tx 11: one more transaction
+	_, err = cl.SQLExec(ctx, "CREATE TABLE t(id INTEGER, a INTEGER, b INTEGER, PRIMARY KEY id)", nil)
+	vh.Must(err, "create table")
+	_, err = cl.SQLExec(ctx, "INSERT INTO t(id, a, b) VALUES (1, 100, 5)", nil)
+	vh.Must(err, "insert")
+	if h, err := cl.Set(ctx, []byte("k11"), []byte("g")); err != nil || h.Id != 11 {
+		vh.Fatalf("unexpected history after the SQL statements: %v %v", h, err)
+	}
 	inner := cl.GetServiceClient()
 	alhOf := map[uint64][]byte{}
 	alh := func(id uint64) []byte {
@@ -439,7 +516,11 @@ func main() {
 	cl.WithStreamServiceFactory(&tamperFactory{ServiceFactory: stream.NewStreamServiceFactory(4096), t: tm})
 	dbname := "defaultdb"
 
-	provenOf := map[string]uint64{"get0": 3, "getAt": 3, "txbyid": 3, "getRef": 6, "sget0": 3, "sgetRef": 6}
+	provenOf := map[string]uint64{"get0": 3, "getAt": 3, "txbyid": 3, "getRef": 6, "sget0": 3, "sgetRef": 6, "vrowT": 10, "vrowF": 10}
+	claim := func(a int64) *schema.Row {
+		return &schema.Row{Columns: []string{"(t.a)"}, Values: []*schema.SQLValue{{Value: &schema.SQLValue_N{N: a}}}}
+	}
+	pk1 := []*schema.SQLValue{{Value: &schema.SQLValue_N{N: 1}}}
 	seen := map[string]bool{}
 	nset := 0
 	for _, c := range cf.Cases {
@@ -488,6 +569,10 @@ func main() {
 				retEntry, err = cl.StreamVerifiedGet(ctx, &schema.VerifiableGetRequest{KeyRequest: &schema.KeyRequest{Key: k1}, ProveSinceTx: T})
 			case "sgetRef":
 				retEntry, err = cl.StreamVerifiedGet(ctx, &schema.VerifiableGetRequest{KeyRequest: &schema.KeyRequest{Key: r1}, ProveSinceTx: T})
+			case "vrowT":
+				err = cl.VerifyRow(ctx, claim(100), "t", pk1)
+			case "vrowF":
+				err = cl.VerifyRow(ctx, claim(5), "t", pk1)
 			case "txbyid":
 				retTx, err = cl.VerifiedTxByID(ctx, P)
 			case "set":
@@ -521,6 +606,12 @@ func main() {
 		st := ms.st
 		replay := map[string]interface{}{"op": c.Op, "rel": c.Rel, "trusted_tx": T, "proven_tx": P, "alterations": c.Muts,
 			"how": "harness/cmd/c01c: bufconn server, history of 8 txs (tx 3 = {k1,k2}, tx 6 = reference r1->k1, tx 7 = reference r2->k2; swap = the honest answer for k2 / r2), client state set to the trusted tx, response altered between server and client"}
+		if len(c.Muts) == 0 && c.Op == "vrowF" {
+			if accepted {
+				res.Violate("client:vrowF:false-claim-verified-on-honest-response", "VerifyRow accepted a = 5 for a row holding a = 100", replay)
+			}
+			continue
+		}
 		if len(c.Muts) == 0 && !accepted {
 			res.Violate("client:"+c.Op+":honest-response-rejected", fmt.Sprintf("%s(%s): honest response rejected: %v", c.Op, c.Rel, err), replay)
 			continue
@@ -601,6 +692,8 @@ func main() {
 					}
 				}
 			}
+		case "vrowF":
+			bad("claim", "VerifyRow accepted the claim a = 5 for a row that holds a = 100")
 		case "set":
 			if !proto.Equal(retHdr, tm.lastSet) {
 				bad("header", "returned transaction header differs from the one committed")
